@@ -395,29 +395,7 @@ def check_single(chk, case):
 
 # ------------------------------------------------------------------ top-down with ground-truth CENTROIDS
 def impl_gtc(case, vids):
-    """REAL TopDownPredictor(centred-instance model only): CentroidCrop(use_gt_centroids=True) +
-    FindInstancePeaks, LabelsReader(instances_key=True)."""
-    flat = [f for v in vids for f in v]
-    scene = stubs.Scene(flat, case["n_nodes"])
-    labels, _ = stubs.make_labels(vids, node_names=[f"n{i}" for i in range(case["n_nodes"])], order=case.get("order"),
-                                  ramp=True)
-    p, inet = stubs.build_topdown_gtc(scene, labels.skeletons, si=case["si"], os_i=case["os_i"], ms_i=case["ms_i"],
-                                      crop_hw=case["crop_hw"], max_hw=tuple(case["max_hw"]), batch_size=case["batch"],
-                                      refinement=case["refine"], threshold=c02.THR)
-    out = stubs.run_predict(p, "LabelsReader", labels)
-    lfs = stubs.labeled_frames_of(p, out)
-    rows = []
-    for gi, o in enumerate(out):
-        for r in range(len(o["frame_idx"])):
-            tl = o["instance_bbox"][r, 0, 0, :]
-            fin = o["pred_instance_peaks"][r] + tl[None, :]
-            lg = inet.log[gi][r]
-            rows.append({"group": gi, "fidx": int(o["frame_idx"][r]), "vidx": int(o["video_idx"][r]),
-                         "eff": float(o["eff_scale"][r]), "bbox_tl": [float(tl[0]), float(tl[1])],
-                         "pts": [None if np.isnan(q).any() else [float(q[0]), float(q[1])] for q in fin],
-                         "vals": [float(v) for v in o["pred_peak_values"][r]], "cval": float(o["centroid_val"][r]),
-                         "code": lg["code"], "animal": lg["animal"]})
-    return rows, lfs
+    return c02.impl_gtc(case, vids)
 
 
 def check_gtc(chk, case):
